@@ -87,7 +87,7 @@ func TestVectors(t *testing.T) {
 		t.Errorf("utctime %v %v", tt, z)
 	}
 	tt, z, _ = CheckUTCTime([]byte("910506164540-0700"))
-	if z != Either || tt.Unix != want {
+	if z != Reject || !tt.Valid || tt.Unix != want {
 		t.Errorf("utctime offset %v %v", tt, z)
 	}
 	// X.680 46.3 examples: "19851106210627.3" local, "19851106210627.3Z", "198511062106.456Z"?; DER form without fraction:
@@ -95,15 +95,15 @@ func TestVectors(t *testing.T) {
 	if z != Accept || tt.Unix != 500159187 {
 		t.Errorf("gentime %v %v", tt, z)
 	}
-	for s, wz := range map[string]Zone{"19851106210627.3": Either, "19851106210627.3Z": Either, "19851106210627.3-0500": Either, "1985110621Z": Either,
-		"19851106210627": Either, "19851106210627+0100": Either, "19850229000000Z": Reject, "19840229000000Z": Accept, "19001231235959Z": Accept, "19000229000000Z": Reject,
+	for s, wz := range map[string]Zone{"19851106210627.3": Reject, "19851106210627.3Z": Accept, "19851106210627.30Z": Reject, "19851106210627,3Z": Reject, "19851106210627.0Z": Reject, "19851106210627.123456789Z": Accept,
+		"19851106210627.3-0500": Reject, "1985110621Z": Reject, "198511062106.5Z": Reject, "19851106210627": Reject, "19851106210627+0100": Reject, "19851106210627+01": Reject, "19850229000000Z": Reject, "19840229000000Z": Accept, "19001231235959Z": Accept, "19000229000000Z": Reject,
 		"20000229000000Z": Accept, "19851306210627Z": Reject, "19851106250627Z": Reject, "19851106216027Z": Reject, "19851106210627.Z": Reject, "19851106210627ZZ": Reject,
 		"1985110621062Z": Reject, "00000101000000Z": Either, "99991231235959Z": Accept, "19851106210660Z": Either, "19851106240000Z": Either, "19851106240001Z": Reject, "": Reject, "Z": Reject} {
 		if _, z, why := CheckGeneralizedTime([]byte(s)); z != wz {
 			t.Errorf("gentime %q zone %v (%s) want %v", s, z, why, wz)
 		}
 	}
-	for s, wz := range map[string]Zone{"9105062345Z": Either, "9105062345+0100": Either, "910506234540": Reject, "910506234540z": Reject, "91050623454Z": Reject, "910229000000Z": Reject,
+	for s, wz := range map[string]Zone{"9105062345Z": Reject, "9105062345+0100": Reject, "910506234540+0100": Reject, "910506234540+01": Reject, "910506234540": Reject, "910506234540z": Reject, "91050623454Z": Reject, "910229000000Z": Reject,
 		"000229000000Z": Accept, "500101000000Z": Accept, "491231235959Z": Accept, "910506234540+2500": Reject, "910506234540+0060": Reject, "910506234540.5Z": Reject} {
 		if _, z, why := CheckUTCTime([]byte(s)); z != wz {
 			t.Errorf("utctime %q zone %v (%s) want %v", s, z, why, wz)
@@ -114,6 +114,20 @@ func TestVectors(t *testing.T) {
 	}
 	if v, _, _ := CheckUTCTime([]byte("491231235959Z")); v.Unix != time.Date(2049, 12, 31, 23, 59, 59, 0, time.UTC).Unix() {
 		t.Error("utctime year 49")
+	}
+	for s, why := range map[string]string{"9105062345Z": "no-seconds", "9105062345+0100": "no-seconds+offset-instead-of-Z", "910506234540-0700": "offset-instead-of-Z", "910506234540+01": "utctime-syntax", "911306234540+0100": "utctime-field-range"} {
+		if v, _, got := CheckUTCTime([]byte(s)); got != why || v.Valid != (why != "utctime-syntax" && why != "utctime-field-range") {
+			t.Errorf("utctime %q class %q valid=%v want %q", s, got, v.Valid, why)
+		}
+	}
+	for s, why := range map[string]string{"19851106210627+0100": "offset-instead-of-Z", "19851106210627.3Z": "fractional-seconds", "19851106210627.30Z": "generalizedtime-fraction-not-der", "19851106210627.3+0100": "generalizedtime-fraction-not-der",
+		"19851106210627": "generalizedtime-local", "198511062106Z": "generalizedtime-reduced-precision", "19851306210627+0100": "generalizedtime-field-range", "19851106210627Z": ""} {
+		if _, _, got := CheckGeneralizedTime([]byte(s)); got != why {
+			t.Errorf("gentime %q class %q want %q", s, got, why)
+		}
+	}
+	if v, z, _ := CheckGeneralizedTime([]byte("19851106220627+0100")); z != Reject || !v.Valid || v.Unix != 500159187 {
+		t.Errorf("gentime offset value %v", v)
 	}
 	// TLV
 	for s, why := range map[string]string{"": "empty", "30": "truncated-header", "3000": "", "1f00": "high-tag-number-form", "3f00": "high-tag-number-form", "3080": "indefinite-length", "30800000": "indefinite-length",
